@@ -39,6 +39,23 @@ macro_rules! driver {
             pub fn write_history(path: &str, ps: u64, seed: u64, txs: u32) -> Result<MBucket, String> {
                 let mut r = Rng::new(mix(seed, 0xC15));
                 let mut m = MBucket::default();
+                if txs == 0 {
+                    // a small database that never outgrows its initial allocation
+                    let db = OpenOptions::new().pagesize(ps).num_pages(32).open(path).map_err(|e| format!("open: {}", e))?;
+                    let tx = db.tx(true).map_err(|e| format!("tx: {}", e))?;
+                    {
+                        let b = tx.get_or_create_bucket("small").map_err(|e| e.to_string())?;
+                        let ms = sub(&mut m, b"small");
+                        for j in 0..r.range(1, 5) {
+                            let k = format!("s{}", j).into_bytes();
+                            let v = Blob::Pat { tag: 7 + j as u32, len: 10 + 20 * j as u32 }.bytes();
+                            b.put(k.clone(), v.clone()).map_err(|e| e.to_string())?;
+                            let _ = ms.put(&k, &v);
+                        }
+                    }
+                    tx.commit().map_err(|e| format!("commit: {}", e))?;
+                    return Ok(m);
+                }
                 let db = OpenOptions::new().pagesize(ps).num_pages(8).open(path).map_err(|e| format!("open: {}", e))?;
                 let mut tag = 1u32;
                 for t in 0..txs {
@@ -225,7 +242,9 @@ fn run(case: &Case, dir: &str) -> Verdict {
     let mut v = Verdict::default();
     let mut r = Rng::new(mix(case.seed, 0x0C15));
     let ps = case.extra.get("pagesize").and_then(|x| x.as_u64()).unwrap_or_else(|| *r.pick(&SIZES));
-    let txs = r.range(2, 7) as u32;
+    // one run in four uses a small file that never grew past its initial 32 pages
+    let small = r.chance(1, 4);
+    let txs = if small { 0 } else { r.range(2, 7) as u32 };
     let path = format!("{}/db", dir);
     v.extra_out = json!({"pagesize": ps});
     *v.counters.entry(format!("pagesize={}", ps)).or_default() += 1;
@@ -252,6 +271,13 @@ fn run(case: &Case, dir: &str) -> Verdict {
     }
     match fsck::check(&buf, len0, ps) {
         Ok(rep) if rep.errors.is_empty() && diff(&rep.contents, &model, false).is_none() => {
+            if small {
+                *v.counters.entry("seed_db_never_grew".into()).or_default() += 1;
+                if len0 != 32 * ps {
+                    v.harness_error = Some(format!("the small seed database grew to {} bytes", len0));
+                    return v;
+                }
+            }
             if rep.shape.free > 0 {
                 *v.counters.entry("seed_db_free_list_nonempty".into()).or_default() += 1;
             }
